@@ -112,8 +112,8 @@ def run(tier: str, seed: int, st: core.ProofStatus) -> core.Result:
                      "base": base_index[(e, ck)]})
         idx += 1
     try:
-        with mp.Pool(16) as pool:
-            impls = pool.map(impl_case, work, chunksize=1)
+        if True:
+            impls = core.pmap(impl_case, work, procs=16, chunksize=1)
     finally:
         shutil.rmtree(root, ignore_errors=True)
 
